@@ -72,6 +72,9 @@ fn main() {
             for w in gen::harvested_at_words().iter().chain(gen::harvested_idents().iter()) {
                 println!("{w}");
             }
+            for t in gen::grammar_tokens_tagged() {
+                println!("{t}");
+            }
             0
         }
         _ => {
@@ -102,6 +105,7 @@ fn cmd_show(a: &[String]) -> i32 {
     println!("# harvested @words: {:?}", gen::harvested_at_words());
     println!("# harvested identifiers: {}", gen::harvested_idents().len());
     println!("# novel words (not in baseline_dict.txt): {:?}", gen::novel_words());
+    println!("# novel grammar tokens: {:?}", gen::novel_tokens());
     println!("{}", scn::to_json(&s).to_string_pretty());
     let r = scn::run(prop, &s);
     println!("# gen_digest={:016x} out_digest={:016x} nontrivial={}", r.gen_digest, r.out_digest, r.nontrivial);
@@ -551,6 +555,31 @@ fn cmd_check(prop_s: &str, tier: &str) -> i32 {
         println!("NOTE: wall-clock cap of {cap_s}s reached; {capped} runs were not executed (reported in evidence)");
     }
 
+    // ------------------------------------------------------------------ working-directory scenarios
+    // (C12 only; chdir is process-global, so these run here, alone, after the parallel batch)
+    let mut cwd_found: Option<(usize, Scn, scenario::Violation)> = None;
+    if prop == Prop::C12 {
+        let k = if thorough { 200u64 } else { 24 };
+        for variant in 0..k {
+            let s = Scn::Cwd { seed, variant };
+            let out = scn::run(prop, &s);
+            evaluations += 1;
+            steps += out.steps;
+            for (kk, v) in &out.counters {
+                *counters.entry(kk.clone()).or_default() += v;
+            }
+            distinct_all.insert(out.gen_digest);
+            if out.nontrivial {
+                nontrivial.insert(out.gen_digest);
+            }
+            if let Some(v) = out.violation {
+                if findings::matches(&known, v.property, &v.signature).is_none() && cwd_found.is_none() {
+                    cwd_found = Some((n + variant as usize, s, v));
+                }
+            }
+        }
+    }
+
     // ------------------------------------------------------------------ samples
     let mut samples = Vec::new();
     for i in 0..3usize.min(n) {
@@ -565,7 +594,7 @@ fn cmd_check(prop_s: &str, tier: &str) -> i32 {
     }
 
     // ------------------------------------------------------------------ determinism self-check
-    let sc_n = if first_violation.is_some() {
+    let sc_n = if first_violation.is_some() || cwd_found.is_some() {
         0
     } else {
         (env_u64("VERIF_SELFCHECK_RUNS").map(|v| v as usize).unwrap_or(if thorough { 3000 } else { 300 })).min(digests.len())
@@ -595,6 +624,8 @@ fn cmd_check(prop_s: &str, tier: &str) -> i32 {
         let (s, desc) = scn::generate(seed, prop, i, thorough);
         let v = results[i].as_ref().unwrap().out.violation.clone().unwrap();
         found = Some(Found { run: i, scenario: s, violation: v, desc });
+    } else if let Some((i, s, v)) = cwd_found {
+        found = Some(Found { run: i, scenario: s, violation: v, desc: "scripted working-directory scenario".to_owned() });
     } else if let Some(i) = cross_process {
         if prop == Prop::C11 {
             // Identical scenario and configuration, different process, different output:
